@@ -99,7 +99,7 @@ pub struct CallingConvention {
 
 /*
     Mips System V:
-        $16-$23 and $29-$31 are saved. This is $s0-S8, $sp and $ra.
+        $16-$23 and $29-$31 are saved. This is $s0-$s7, $sp, $fp (also called $s8) and $ra.
         Result is in $v0.
         Everything else is trashed.
 */
@@ -287,7 +287,7 @@ impl CallingConvention {
                 preserved_registers.insert(il::scalar("$s5", 32));
                 preserved_registers.insert(il::scalar("$s6", 32));
                 preserved_registers.insert(il::scalar("$s7", 32));
-                preserved_registers.insert(il::scalar("$s8", 32));
+                preserved_registers.insert(il::scalar("$fp", 32));
                 preserved_registers.insert(il::scalar("$sp", 32));
                 preserved_registers.insert(il::scalar("$ra", 32));
 
